@@ -39,15 +39,39 @@ pub mod format {
             use vstd::prelude::*;
             //@extract biscuit-auth/src/format/schema.rs :: mod public_key :: enum Algorithm
             //@end
+            impl Algorithm {
+                // ASSUMED (prost::Enumeration derive): the tag table
+                #[verifier::external_body]
+                pub fn from_i32(value: i32) -> (r: Option<Algorithm>)
+                    ensures r == (if value == 0 { Some(Algorithm::Ed25519) } else if value == 1 { Some(Algorithm::Secp256r1) } else { None::<Algorithm> })
+                { unimplemented!() }
+            }
         }
         pub mod proof {
             use vstd::prelude::*;
             //@extract biscuit-auth/src/format/schema.rs :: mod proof :: enum Content
             //@end
         }
-        // stand-in for the Datalog block message (schema::Block): opaque in this unit
+        //@extract biscuit-auth/src/format/schema.rs :: struct Block
+        //@end
+        //@extract biscuit-auth/src/format/schema.rs :: struct ThirdPartyBlockRequest
+        //@end
+        //@extract biscuit-auth/src/format/schema.rs :: struct ThirdPartyBlockContents
+        //@end
+        // stand-ins for the Datalog sub-messages of a block (opaque in the token-level units)
         #[verifier::external_body]
-        pub struct Block { _p: u8 }
+        pub struct FactV2 { _p: u8 }
+        #[verifier::external_body]
+        pub struct RuleV2 { _p: u8 }
+        #[verifier::external_body]
+        pub struct CheckV2 { _p: u8 }
+        #[verifier::external_body]
+        pub struct Scope { _p: u8 }
+        // ASSUMED: derived Clone of prost messages is structural
+        impl Clone for Block {
+            #[verifier::external_body]
+            fn clone(&self) -> (r: Self) ensures r == *self { unimplemented!() }
+        }
 
         // ASSUMED prost contracts (prost::Message): decoding is a partial function of the bytes,
         // encoding a total function of the message, encoded_len is the length of the encoding,
@@ -71,10 +95,37 @@ pub mod format {
                 ensures r == wire_encode(*self).len()
             { unimplemented!() }
         }
+        pub uninterp spec fn block_wire_decode(bytes: Seq<u8>) -> Option<Block>;
+        pub broadcast axiom fn ax_block_wire_roundtrip(m: Block)
+            ensures #[trigger] block_wire_decode(block_wire_encode(m)) == Some(m);
         impl Block {
             #[verifier::external_body]
             pub fn encode(&self, buf: &mut Vec<u8>) -> (r: Result<(), crate::prost::EncodeError>)
                 ensures r is Ok ==> final(buf)@ == old(buf)@ + block_wire_encode(*self)
+            { unimplemented!() }
+            #[verifier::external_body]
+            pub fn decode(buf: &[u8]) -> (r: Result<Block, crate::prost::DecodeError>)
+                ensures match block_wire_decode(buf@) { Some(m) => r is Ok && r->Ok_0 == m, None => r is Err }
+            { unimplemented!() }
+        }
+        pub uninterp spec fn tpc_wire_decode(bytes: Seq<u8>) -> Option<ThirdPartyBlockContents>;
+        pub uninterp spec fn tpr_wire_decode(bytes: Seq<u8>) -> Option<ThirdPartyBlockRequest>;
+        impl ThirdPartyBlockContents {
+            #[verifier::external_body]
+            pub fn decode(buf: &[u8]) -> (r: Result<ThirdPartyBlockContents, crate::prost::DecodeError>)
+                ensures match tpc_wire_decode(buf@) { Some(m) => r is Ok && r->Ok_0 == m, None => r is Err }
+            { unimplemented!() }
+            #[verifier::external_body]
+            pub fn encode(&self, buf: &mut Vec<u8>) -> (r: Result<(), crate::prost::EncodeError>)
+            { unimplemented!() }
+        }
+        impl ThirdPartyBlockRequest {
+            #[verifier::external_body]
+            pub fn decode(buf: &[u8]) -> (r: Result<ThirdPartyBlockRequest, crate::prost::DecodeError>)
+                ensures match tpr_wire_decode(buf@) { Some(m) => r is Ok && r->Ok_0 == m, None => r is Err }
+            { unimplemented!() }
+            #[verifier::external_body]
+            pub fn encode(&self, buf: &mut Vec<u8>) -> (r: Result<(), crate::prost::EncodeError>)
             { unimplemented!() }
         }
     }
@@ -86,6 +137,11 @@ pub mod format {
         #[verifier::external_body]
         pub fn token_block_to_proto_block(input: &crate::token::Block) -> (r: super::schema::Block)
             ensures r == proto_of(*input)
+        { unimplemented!() }
+        // ASSUMED (format/convert.rs): fallible, total (never panics)
+        #[verifier::external_body]
+        pub fn proto_block_to_token_block(input: &super::schema::Block, external_key: Option<crate::crypto::PublicKey>)
+            -> (r: Result<crate::token::Block, crate::error::Format>)
         { unimplemented!() }
     }
 
@@ -185,7 +241,7 @@ pub mod format {
         //@ abstract_arg block_signature_version 4 :: crate::verif_std::VerifOpaqueIter::new()
         //@ requires wf: next_keypair.wf()
         //@ ensures sealed: self.proof is Seal ==> r == Err::<SerializedBiscuit, error::Token>(error::Token::AlreadySealed)
-        //@ ensures frame: r is Ok ==> appended(*self, r->Ok_0) && r->Ok_0.proof == TokenNext::Secret(kp_private(*next_keypair)) && last_block(r->Ok_0).next_key == kp_public(*next_keypair) && last_block(r->Ok_0).external_signature == external_signature
+        //@ ensures frame: r is Ok ==> appended(*self, r->Ok_0) && r->Ok_0.proof == TokenNext::Secret(kp_private(*next_keypair)) && last_block(r->Ok_0).next_key == kp_public(*next_keypair) && last_block(r->Ok_0).external_signature == external_signature && (external_signature is Some ==> last_block(r->Ok_0).version == 1)
         //@ ensures chain: r is Ok && chain_tail_valid(*self, false) && ext_ok(last_block(r->Ok_0), last_block(*self).next_key, last_block(*self).signature, false) ==> chain_tail_valid(r->Ok_0, false)
         //@ ghost before_tail :: proof {
         //@|    lemma_sign_verifies(keypair, block_payload_v0(v@, kp_public(*next_keypair), ext_bytes(external_signature)));
@@ -199,7 +255,7 @@ pub mod format {
         //@ abstract_arg block_signature_version 4 :: crate::verif_std::VerifOpaqueIter::new()
         //@ requires wf: next_keypair.wf()
         //@ ensures sealed: self.proof is Seal ==> r == Err::<SerializedBiscuit, error::Token>(error::Token::AlreadySealed)
-        //@ ensures frame: r is Ok ==> appended(*self, r->Ok_0) && r->Ok_0.proof == TokenNext::Secret(kp_private(*next_keypair)) && last_block(r->Ok_0).next_key == kp_public(*next_keypair) && last_block(r->Ok_0).external_signature == external_signature && last_block(r->Ok_0).data@ == block@
+        //@ ensures frame: r is Ok ==> appended(*self, r->Ok_0) && r->Ok_0.proof == TokenNext::Secret(kp_private(*next_keypair)) && last_block(r->Ok_0).next_key == kp_public(*next_keypair) && last_block(r->Ok_0).external_signature == external_signature && last_block(r->Ok_0).data@ == block@ && (external_signature is Some ==> last_block(r->Ok_0).version == 1)
         //@ ensures chain: r is Ok && chain_tail_valid(*self, false) && ext_ok(last_block(r->Ok_0), last_block(*self).next_key, last_block(*self).signature, false) ==> chain_tail_valid(r->Ok_0, false)
         //@ ghost before_tail :: proof {
         //@|    lemma_sign_verifies(keypair, block_payload_v0(block@, kp_public(*next_keypair), ext_bytes(external_signature)));
@@ -220,6 +276,9 @@ pub mod format {
 
     //@extract biscuit-auth/src/format/mod.rs :: fn block_signature_version
     //@ sub previous_blocks_sig_versions\.max\(\) => crate::verif_std::verif_iter_max(previous_blocks_sig_versions)
+    //@ ensures third_party: external_signature is Some ==> r == 1
+    //@ ensures datalog33: block_version is Some && block_version->Some_0 >= 6 ==> r == 1
+    //@ ensures non_ed25519: !(block_keypair is Ed25519 && next_keypair is Ed25519) ==> r == 1
     //@end
 }
 //@canary chain-prev :: format::SerializedBiscuit::verify_inner :: previous_signature = &block.signature; ==>>
